@@ -86,7 +86,17 @@ pub enum Config {
     /// Gibbs on a bivariate normal with correlation rho
     GibbsBinormal { rho: R },
     /// HMC: harness Gaussian or the library's 2-D Gaussian
-    Hmc { spec: Spec, library_target: bool, f32: bool, eps_rel: R, n_leapfrog: usize },
+    /// `jitter`: the transitions are made with step(), and the public `step_size` field is given
+    /// a fresh value (0.8..1.2 x nominal, independent of the state) before every transition
+    Hmc {
+        spec: Spec,
+        library_target: bool,
+        f32: bool,
+        eps_rel: R,
+        n_leapfrog: usize,
+        #[serde(default)]
+        jitter: bool,
+    },
     Nuts { spec: Spec, library_target: bool, f32: bool, accept: R },
 }
 
@@ -111,13 +121,17 @@ fn cfg_strategy(which: u8) -> BoxedStrategy<Config> {
             }),
         ]),
         2 => bx((-0.95f64..0.95).prop_map(|rho| Config::GibbsBinormal { rho: R(rho) })),
-        3 => bx((gauss_spec(5, 10.0), proptest::bool::weighted(0.3), any::<bool>(), prop_oneof![3 => 0.3f64..1.0, 2 => 1.0f64..1.7], 2usize..12).prop_map(|(spec, library_target, f32, eps_rel, n_leapfrog)| Config::Hmc {
-            spec,
-            library_target,
-            f32,
-            eps_rel: R(eps_rel),
-            n_leapfrog,
-        })),
+        3 => bx((gauss_spec(5, 10.0), proptest::bool::weighted(0.3), any::<bool>(), prop_oneof![3 => 0.3f64..1.0, 2 => 1.0f64..1.7], 2usize..12, proptest::bool::weighted(0.35)).prop_map(
+            |(spec, library_target, f32, eps_rel, n_leapfrog, jitter)| Config::Hmc {
+                spec,
+                library_target,
+                f32,
+                // (jitter scales the step by up to 1.2: keep below the stability limit 2)
+                eps_rel: R(if jitter { eps_rel.min(1.5) } else { eps_rel }),
+                n_leapfrog: if jitter { n_leapfrog.min(6) } else { n_leapfrog },
+                jitter,
+            },
+        )),
         _ => bx((gauss_spec(4, 10.0), proptest::bool::weighted(0.3), any::<bool>(), 0.6f64..0.9).prop_map(|(spec, library_target, f32, accept)| Config::Nuts { spec, library_target, f32, accept: R(accept) })),
     }
 }
@@ -325,7 +339,7 @@ where
     Ok(Outcome { accept_rate: move_rate(&draws), draws, fns: gauss_fns(&mean, &cov), note: format!("MH gaussian dim {d}, proposal scale {scale:.3}, drift {:.3}", drift * scale) })
 }
 
-fn hmc_run<T, B>(spec: &Spec, library_target: bool, eps_rel: f64, l: usize, seed: u64, work: usize) -> Result<Outcome, Fail>
+fn hmc_run<T, B>(spec: &Spec, library_target: bool, eps_rel: f64, l: usize, seed: u64, work: usize, jitter: bool) -> Result<Outcome, Fail>
 where
     T: num_traits::Float + burn::tensor::ElementConversion + burn::tensor::Element + rand_distr::uniform::SampleUniform + num_traits::FromPrimitive + num_traits::FloatConst + std::fmt::Debug,
     B: AutodiffBackend,
@@ -341,19 +355,42 @@ where
     // stability limit of the leapfrog integrator on a Gaussian is 2 x smallest sd
     let eps = eps_rel * spec.min_scale();
     let eps_t = T::from_f64(eps).unwrap();
+    // transitions by step() with a re-assigned step size: rows of `positions` after each one
+    macro_rules! jittered {
+        ($s:expr) => {{
+            let mut out = vec![0.0f64; chains * n * d];
+            for i in 0..n {
+                $s.step_size = T::from_f64(eps * (0.8 + 0.4 * rng.unif())).unwrap();
+                $s.step();
+                let p = to_vec(&$s.positions);
+                for c in 0..chains {
+                    out[(c * n + i) * d..(c * n + i + 1) * d].copy_from_slice(&p[c * d..(c + 1) * d]);
+                }
+            }
+            out
+        }};
+    }
     let v = if library_target && d == 2 {
         let t = DiffableGaussian2D::<T>::new(
             [T::from_f64(mean[0]).unwrap(), T::from_f64(mean[1]).unwrap()],
             [[T::from_f64(cov[0]).unwrap(), T::from_f64(cov[1]).unwrap()], [T::from_f64(cov[2]).unwrap(), T::from_f64(cov[3]).unwrap()]],
         );
         let mut s = HMC::<T, B, _>::new(t, inits, eps_t, l).set_seed(seed);
-        to_vec(&s.run(n, 0))
+        if jitter {
+            jittered!(s)
+        } else {
+            to_vec(&s.run(n, 0))
+        }
     } else {
         let mut s = HMC::<T, B, HTarget>::new(HTarget::new(spec.clone()), inits, eps_t, l).set_seed(seed);
-        to_vec(&s.run(n, 0))
+        if jitter {
+            jittered!(s)
+        } else {
+            to_vec(&s.run(n, 0))
+        }
     };
     let draws = flat_to_draws(&v, chains, n, d);
-    Ok(Outcome { accept_rate: move_rate(&draws), draws, fns: gauss_fns(&mean, &cov), note: format!("HMC gaussian dim {d}, eps {eps:.4}, L {l}, library target {}", library_target && d == 2) })
+    Ok(Outcome { accept_rate: move_rate(&draws), draws, fns: gauss_fns(&mean, &cov), note: format!("HMC gaussian dim {d}, eps {eps:.4}, L {l}, library target {}, step size re-assigned before every step(): {jitter}", library_target && d == 2) })
 }
 
 fn nuts_run<T, B>(spec: &Spec, library_target: bool, accept: f64, seed: u64, work: usize) -> Result<Outcome, Fail>
@@ -501,11 +538,11 @@ fn run_config(c: &Config, seed: u64, work: usize) -> Result<Outcome, Fail> {
             let fns = gauss_fns(&[0.0, 0.0], &[1.0, r, r, 1.0]);
             Ok(Outcome { accept_rate: 1.0, draws, fns, note: format!("Gibbs on a bivariate normal, rho {r:.3}") })
         }
-        Config::Hmc { spec, library_target, f32, eps_rel, n_leapfrog } => {
+        Config::Hmc { spec, library_target, f32, eps_rel, n_leapfrog, jitter } => {
             if *f32 {
-                hmc_run::<f32, B32>(spec, *library_target, eps_rel.0, *n_leapfrog, seed, work)
+                hmc_run::<f32, B32>(spec, *library_target, eps_rel.0, *n_leapfrog, seed, work, *jitter)
             } else {
-                hmc_run::<f64, B64>(spec, *library_target, eps_rel.0, *n_leapfrog, seed, work)
+                hmc_run::<f64, B64>(spec, *library_target, eps_rel.0, *n_leapfrog, seed, work, *jitter)
             }
         }
         Config::Nuts { spec, library_target, f32, accept } => {
